@@ -45,6 +45,8 @@ type Case struct {
 	// Files: certificate material reaches both configurations through files ("abs" absolute
 	// paths, "rel" relative to the configuration file) instead of inline PEM text
 	Files string `json:"files,omitempty"`
+	// Bundle: certificate material is a bundle (leaf + its issuer, which is not the configured CA)
+	Bundle bool `json:"bundle,omitempty"`
 }
 
 func (m Member) String() string {
@@ -76,6 +78,9 @@ func (c Case) String() string {
 	}
 	if c.Files != "" {
 		u += " cert-files=" + c.Files
+	}
+	if c.Bundle {
+		u += " certificate-bundles"
 	}
 	return fmt.Sprintf("[%s] insecure=%v clientCert=%q knowsCA=%v%s", s, c.Insecure, c.ClientCert, c.KnowsCA, u)
 }
@@ -110,7 +115,7 @@ func execute(t *testing.T, c Case) (kind, detail string) {
 		var list []upstream.Upstream
 		for _, m := range c.Members {
 			o := world.Options{Carrier: m.Carrier, TLS: m.TLS, Channels: []string{"x"}, ServerCert: m.Cert, RequireClientCert: m.Require, ServerTrustsForeignCA: m.TrustsForeign,
-				Host: m.Host, Keep: true, Insecure: c.Insecure, ClientKnowsCA: c.KnowsCA, ClientCert: c.ClientCert, CertFiles: c.Files}
+				Host: m.Host, Keep: true, Insecure: c.Insecure, ClientKnowsCA: c.KnowsCA, ClientCert: c.ClientCert, CertFiles: c.Files, Bundle: c.Bundle}
 			w, err := world.New(o)
 			if err != nil {
 				kind, detail = "setup", err.Error()
@@ -250,6 +255,21 @@ func cases(thorough bool) []Case {
 			}
 		}
 	}
+	// certificate bundles: a leaf followed by an issuer that is not the configured CA
+	for _, cr := range []cv{{"stream", true}, {"stream", false}, {"ws", true}, {"dns", false}} {
+		for _, cert := range []string{"good", "untrusted"} {
+			for _, insecure := range []bool{false, true} {
+				for _, cc := range []string{"", "good", "foreign"} {
+					for _, req := range []bool{false, true} {
+						if cert == "good" && cc != "foreign" {
+							continue // nothing is bundled
+						}
+						out = append(out, Case{Members: []Member{{Carrier: cr.carrier, TLS: cr.tls, Cert: cert, Host: "server.test", Require: req}}, Insecure: insecure, ClientCert: cc, KnowsCA: true, Bundle: true})
+					}
+				}
+			}
+		}
+	}
 	// the same material through files (absolute, and relative to the configuration file)
 	for _, files := range []string{"abs", "rel"} {
 		for _, cr := range []cv{{"stream", true}, {"stream", false}, {"ws", true}} {
@@ -331,7 +351,7 @@ func TestCheck(t *testing.T) {
 			if len(c.Members) > 1 {
 				kind += "|after-earlier-attempt"
 			}
-			r.Fail(kind+map[bool]string{true: "|cert-files", false: ""}[c.Files != ""], fmt.Sprintf("%s: %s", c, detail), len(c.Members)*10+len(c.ClientCert), c)
+			r.Fail(kind+map[bool]string{true: "|cert-files", false: ""}[c.Files != ""]+map[bool]string{true: "|bundle", false: ""}[c.Bundle], fmt.Sprintf("%s: %s", c, detail), len(c.Members)*10+len(c.ClientCert), c)
 		}
 	}
 	if r.Replay != nil {
